@@ -450,17 +450,16 @@ class simplify_chained_calls(FuncADLNodeTransformer):
         else:
             return FuncADLNodeTransformer.visit_Call(self, call_node)
 
-    def visit_Subscript_Tuple(self, v: ast.Tuple, s: ast.Constant):
+    def visit_Subscript_Tuple(self, v: ast.Tuple, s: ast.expr):
         """
         (t1, t2, t3...)[1] => t2
 
-        Only works if index is a number
+        Only works if index is a non-negative integer constant - anything else
+        (a variable, a negative index, a slice) is left as a subscript.
         """
-        # Get the value out - this is due to supporting python 3.7-3.9
-        n = s.value
-        if n is None:
+        n = s.value if isinstance(s, ast.Constant) else None
+        if not isinstance(n, int) or n < 0:
             return ast.Subscript(v, s, ast.Load())  # type: ignore
-        assert isinstance(n, int), "Programming error: index is not an integer in tuple subscript"
         if n >= len(v.elts):
             raise FuncADLIndexError(
                 f"Attempt to access the {n}th element of a tuple only"
@@ -469,14 +468,15 @@ class simplify_chained_calls(FuncADLNodeTransformer):
 
         return copy.deepcopy(v.elts[n])
 
-    def visit_Subscript_List(self, v: ast.List, s: ast.Constant):
+    def visit_Subscript_List(self, v: ast.List, s: ast.expr):
         """
         [t1, t2, t3...][1] => t2
 
-        Only works if index is a number
+        Only works if index is a non-negative integer constant - anything else
+        (a variable, a negative index, a slice) is left as a subscript.
         """
-        n = s.value
-        if n is None:
+        n = s.value if isinstance(s, ast.Constant) else None
+        if not isinstance(n, int) or n < 0:
             return ast.Subscript(v, s, ast.Load())  # type: ignore
         if n >= len(v.elts):
             raise FuncADLIndexError(
@@ -486,22 +486,26 @@ class simplify_chained_calls(FuncADLNodeTransformer):
 
         return copy.deepcopy(v.elts[n])
 
-    def visit_Subscript_Dict(self, v: ast.Dict, s: ast.Constant):
+    def visit_Subscript_Dict(self, v: ast.Dict, s: ast.expr):
         """
         {t1, t2, t3...}[1] => t2
         """
-        sub = s.value
-        assert isinstance(sub, (str, int))
-        return self.visit_Subscript_Dict_with_value(v, sub)
+        if isinstance(s, ast.Constant) and isinstance(s.value, (str, int)):
+            found = self.visit_Subscript_Dict_with_value(v, s.value)
+            if found is not None:
+                return found
+        return ast.Subscript(v, s, ast.Load())  # type: ignore
 
     def visit_Subscript_Dict_with_value(self, v: ast.Dict, s: Union[str, int]):
-        "Do the lookup for the dict"
+        "Do the lookup for the dict. Returns None if we can't find the key."
+        if not all(isinstance(key, ast.Constant) for key in v.keys):
+            return None
         for index, value in enumerate(v.keys):
             assert isinstance(value, ast.Constant)
             if value.value == s:
                 return copy.deepcopy(v.values[index])
 
-        return ast.Subscript(v, s, ast.Load())  # type: ignore
+        return None
 
     def visit_Subscript_Of_First(self, first: ast.expr, s):
         """
@@ -602,6 +606,8 @@ class simplify_chained_calls(FuncADLNodeTransformer):
 
         visited_value = self.visit(node.value)
         if isinstance(visited_value, ast.Dict):
-            return self.visit_Subscript_Dict_with_value(visited_value, node.attr)
+            found = self.visit_Subscript_Dict_with_value(visited_value, node.attr)
+            if found is not None:
+                return found
 
         return ast.Attribute(value=visited_value, attr=node.attr, ctx=ast.Load())
